@@ -2,6 +2,7 @@ package world
 
 import (
 	"fmt"
+	"math/big"
 	"strings"
 
 	"github.com/xuperchain/xupercore/bcs/ledger/xledger/state/utxo/txhash"
@@ -278,6 +279,9 @@ func UniverseC12() *Universe {
 	root := b.Root()
 	b.At("g")
 	kvA := b.KV("kvA", "A", "put k1 x", []In{{Tx: root, Offset: 0}})
+	// B gets two more outputs (multi-input spends that cite a shared output at another position)
+	chg := new(big.Int).SetBytes(kvA.TxOutputs[len(kvA.TxOutputs)-1].Amount)
+	tSp := b.Transfer("tSp", "A", []In{{Tx: kvA, Offset: len(kvA.TxOutputs) - 1}}, []Out{{To: "B", Amount: "100"}, {To: "B", Amount: "100"}, {To: "A", Amount: new(big.Int).Sub(chg, big.NewInt(200)).String()}})
 	b.Block("k1", "M")
 	b.Block("k2", "P")
 	b.At("k1")
@@ -291,7 +295,14 @@ func UniverseC12() *Universe {
 	mk("wB", "B", "put k1 p1", In{Tx: root, Offset: 1})
 	mk("wC", "C", "put k1 p2", In{Tx: root, Offset: 2})
 	mk("rD", "D", "get k1", In{Tx: root, Offset: 3})
-	mk("rA", "A", "get k1", In{Tx: kvA, Offset: len(kvA.TxOutputs) - 1})
+	mk("rA", "A", "get k1", In{Tx: tSp, Offset: 2})
+	// a writer of k1 that first reads another key and pays from C's output, and the two
+	// transactions that need exactly the keys it does not share with wB
+	mk("wCk0", "C", "get k0;put k1 v", In{Tx: root, Offset: 2})
+	mk("wD0", "D", "put k0 z", In{Tx: root, Offset: 3})
+	// the output sB1 / sB2 spend, cited at input position 1
+	b.Raw("sB3", BuildTx(TxSpec{Initiator: "B", Ins: []In{{Tx: tSp, Offset: 0}, {Tx: root, Offset: 1}}, Outs: []Out{{To: "D", Amount: "1100"}}, Nonce: "sB3"}), false)
+	b.Raw("sB4", BuildTx(TxSpec{Initiator: "B", Ins: []In{{Tx: tSp, Offset: 1}, {Tx: tSp, Offset: 0}}, Outs: []Out{{To: "D", Amount: "200"}}, Nonce: "sB4"}), false)
 	b.Raw("sB1", BuildTx(TxSpec{Initiator: "B", Ins: []In{{Tx: root, Offset: 1}}, Outs: []Out{{To: "A", Amount: "1000"}}, Nonce: "sB1"}), false)
 	b.Raw("sB2", BuildTx(TxSpec{Initiator: "B", Ins: []In{{Tx: root, Offset: 1}}, Outs: []Out{{To: "C", Amount: "999"}, {To: "$", Amount: "1"}}, Nonce: "sB2"}), false)
 	b.Raw("tC", BuildTx(TxSpec{Initiator: "C", Ins: []In{{Tx: root, Offset: 2}}, Outs: []Out{{To: "D", Amount: "1000"}}, Nonce: "tC"}), false)
